@@ -1,17 +1,27 @@
 package interp
 
-// Minimal fmt intrinsics: formatting is delegated to the host's fmt on concrete
-// operands; symbolic operands are rendered as "?" (error messages and debug
-// strings only — writers whose output is a verification subject use the Go model
-// package instead).
+// Minimal fmt intrinsics: formatting is delegated to the host's fmt on concrete operands.
+// When an operand is symbolic the result is an opaqueStr: it can be carried around, wrapped
+// in an error, concatenated and formatted again, but any inspection (length, index,
+// comparison, conversion) is reported as unsupported, so a run never decides anything from
+// a made-up rendering. Writers whose output is a verification subject use the Go model
+// package (zz_verifmodel) instead.
 
 import (
 	"fmt"
 	"go/types"
+	"strings"
 )
+
+// opaqueStr is the result of host formatting with symbolic operands.
+type opaqueStr struct{}
+
+const opaqueMark = "\x00?\x00"
 
 func (fr *frame) hostArg(v value) interface{} {
 	switch v := v.(type) {
+	case opaqueStr:
+		return opaqueMark
 	case iface:
 		if v.t == nil {
 			return nil
@@ -33,18 +43,18 @@ func (fr *frame) hostArg(v value) interface{} {
 				if s, ok := r.(string); ok {
 					return s
 				}
-				return "?"
+				return opaqueMark
 			}
 		}
 		return fr.hostArg(v.v)
-	case sv, symstr:
-		return "?"
+	case sv, symstr, symFloat:
+		return opaqueMark
 	case []value:
 		b := make([]byte, 0, len(v))
 		for _, c := range v {
 			u, ok := c.(uint8)
 			if !ok {
-				return "?"
+				return opaqueMark
 			}
 			b = append(b, u)
 		}
@@ -55,9 +65,17 @@ func (fr *frame) hostArg(v value) interface{} {
 		}
 		return "&?"
 	case structure, array, *omap, *closure:
-		return "?"
+		return opaqueMark
 	}
 	return v
+}
+
+// hostStr turns the host rendering into a value: opaque if any operand was.
+func hostStr(s string) value {
+	if strings.Contains(s, opaqueMark) {
+		return opaqueStr{}
+	}
+	return s
 }
 
 func (fr *frame) methodNamed(t types.Type, name string) value {
@@ -86,7 +104,51 @@ func (fr *frame) hostArgs(vs value) []interface{} {
 	return out
 }
 
-func (fr *frame) newError(msg string) value {
+func (fr *frame) newError(msg string) value { return fr.newErrorV(msg) }
+
+// wrapVerbArg returns the operand index of the single %w verb of format, or -1.
+func wrapVerbArg(format string) int {
+	if strings.Count(format, "%w") == 0 {
+		return -1
+	}
+	if strings.Count(format, "%w") > 1 {
+		panic(unsupported("fmt.Errorf with more than one %w"))
+	}
+	arg := 0
+	for i := 0; i < len(format); i++ {
+		if format[i] != '%' {
+			continue
+		}
+		i++
+		for i < len(format) && strings.IndexByte("+-# 0123456789.", format[i]) >= 0 {
+			i++
+		}
+		if i >= len(format) {
+			break
+		}
+		switch format[i] {
+		case '%':
+			continue
+		case '*', '[':
+			panic(unsupported("fmt.Errorf with %w and '*' or indexed operands"))
+		case 'w':
+			return arg
+		}
+		arg++
+	}
+	return -1
+}
+
+func (fr *frame) newWrapError(msg value, err iface) value {
+	fp := fr.i.prog.ImportedPackage("fmt")
+	if fp == nil || fp.Type("wrapError") == nil {
+		panic(unsupported("fmt.wrapError not available"))
+	}
+	var cell value = structure{msg, err}
+	return iface{t: types.NewPointer(fp.Type("wrapError").Type()), v: &cell}
+}
+
+func (fr *frame) newErrorV(msg value) value {
 	ep := fr.i.prog.ImportedPackage("errors")
 	if ep == nil {
 		panic(unsupported("errors package not loaded"))
@@ -99,16 +161,25 @@ func (fr *frame) newError(msg string) value {
 func init() {
 	for k, v := range map[string]func(fr *frame, args []value) value{
 		"fmt.Errorf": func(fr *frame, args []value) value {
-			return fr.newError(fmt.Sprintf(goString(args[0]), fr.hostArgs(args[1])...))
+			format := goString(args[0])
+			msg := hostStr(fmt.Sprintf(strings.ReplaceAll(format, "%w", "%v"), fr.hostArgs(args[1])...))
+			if k := wrapVerbArg(format); k >= 0 {
+				if ops := args[1].([]value); k < len(ops) {
+					if e, ok := ops[k].(iface); ok && e.t != nil && fr.methodOf(e.t, "Error") != nil {
+						return fr.newWrapError(msg, e)
+					}
+				}
+			}
+			return fr.newErrorV(msg)
 		},
 		"fmt.Sprintf": func(fr *frame, args []value) value {
-			return fmt.Sprintf(goString(args[0]), fr.hostArgs(args[1])...)
+			return hostStr(fmt.Sprintf(goString(args[0]), fr.hostArgs(args[1])...))
 		},
 		"fmt.Sprint": func(fr *frame, args []value) value {
-			return fmt.Sprint(fr.hostArgs(args[0])...)
+			return hostStr(fmt.Sprint(fr.hostArgs(args[0])...))
 		},
 		"fmt.Sprintln": func(fr *frame, args []value) value {
-			return fmt.Sprintln(fr.hostArgs(args[0])...)
+			return hostStr(fmt.Sprintln(fr.hostArgs(args[0])...))
 		},
 		"fmt.Println": func(fr *frame, args []value) value { return tuple{0, iface{}} },
 		"fmt.Printf":  func(fr *frame, args []value) value { return tuple{0, iface{}} },
